@@ -331,7 +331,7 @@ fn c20(ctx: &Ctx, rep: &mut Report) {
     let names = ["a", "b"];
     let paths = namespace(&names, 2);
     let (muts, _) = sweep_alphabet(&paths, false);
-    let cap = if ctx.thorough { 4000 } else { 260 };
+    let cap = if ctx.thorough { 12_000 } else { 600 };
     let (states, complete) = enumerate_states(&muts, cap);
     if !complete {
         rep.exhaustive = false;
